@@ -359,15 +359,40 @@ def prefix_rules(C, P):
             if b.kind == 'Closure' and not sinks:
                 # the test sits in a closure of an iterator chain (`keys().filter_map(|k| k.strip_prefix(old).filter(boundary).map(..))`):
                 # what leaves the closure as Some(..) / true is what gets re-keyed - the closure's successful return is the sink
-                sinks = [q for q, s_ in b.iter_stmts() if s_['k'] == 'assign' and s_['dst']['l'] == 0 and not s_['dst']['p'] and q in b.reach_from(pos)
-                         and not (s_['rv']['k'] == 'agg' and s_['rv'].get('var') in ('None',)) and not (s_['rv']['k'] == 'use' and str(const_val(s_['rv']['o'])) == 'false')]
-                sinks += [q for q, t_ in b.iter_calls() if t_['dst']['l'] == 0 and not t_['dst']['p'] and q in b.reach_from(pos) and not call_matches(t_, r'FromResidual.*::from_residual$')]
+                # (a Some(..) / true built after the strip - wherever it is stored first - or an adaptor call whose result is returned)
+                rs = b.reach_from(pos)
+                # locals whose value ends up in the closure's return value (through moves and Option adaptors)
+                B_ = {0}
+                grew_ = True
+                ADAPT = r'Option::<T>::(map|and_then|filter|cloned|copied|or|or_else|inspect|then|zip)$'
+                while grew_:
+                    grew_ = False
+                    for q, s_ in b.iter_stmts():
+                        if s_['k'] == 'assign' and not s_['dst']['p'] and s_['dst']['l'] in B_ and s_['rv']['k'] in ('use', 'cast') and is_local_op(s_['rv']['o']) and s_['rv']['o']['l'] not in B_:
+                            B_.add(s_['rv']['o']['l']); grew_ = True
+                    for q, t_ in b.iter_calls():
+                        if not t_['dst']['p'] and t_['dst']['l'] in B_ and call_matches(t_, ADAPT) and t_['args'] and is_local_op(t_['args'][0]) and t_['args'][0]['l'] not in B_:
+                            B_.add(t_['args'][0]['l']); grew_ = True
+                sinks = [q for q, s_ in b.iter_stmts() if q in rs and s_['k'] == 'assign' and not s_['dst']['p'] and s_['dst']['l'] in B_ and
+                         ((s_['rv']['k'] == 'agg' and s_['rv'].get('var') in ('Some', 'Ok')) or (s_['rv']['k'] == 'use' and str(const_val(s_['rv']['o'])) == 'true'))]
+                # producers of a "selected" result: bool::then / is_some_and / format!; an Option adaptor counts only when it continues the chain
+                # that starts at the strip result itself (`strip_prefix(p).filter(..).map(..)`) - applied to anything else it also passes None on
+                chain = forward_taint(b, {t['dst']['l']}, through_refs=False)
+                grew2 = True
+                while grew2:
+                    grew2 = False
+                    for q, t_ in b.iter_calls():
+                        if call_matches(t_, ADAPT) and t_['args'] and is_local_op(t_['args'][0]) and t_['args'][0]['l'] in chain and t_['dst']['l'] not in chain:
+                            chain |= forward_taint(b, {t_['dst']['l']}, through_refs=False); grew2 = True
+                sinks += [q for q, t_ in b.iter_calls() if q in rs and not t_['dst']['p'] and t_['dst']['l'] in B_
+                          and (call_matches(t_, r'<impl bool>::(then|then_some)$|Option::<T>::is_some_and$|fmt::format$')
+                               or (call_matches(t_, r'Option::<T>::(map|and_then|filter)$') and t_['args'] and is_local_op(t_['args'][0]) and t_['args'][0]['l'] in chain))]
             sw = [p for p, tt in b.iter_calls() if call_matches(tt, r'str>::starts_with') and any(const_val(a) == "'/'" for a in tt['args'])]
             ie = [p for p, tt in b.iter_calls() if call_matches(tt, r'str>::is_empty$')]
             # `.strip_prefix(old).filter(|rest| rest.is_empty() || rest.starts_with('/'))`: the boundary test is the predicate of an
             # Option::filter applied to the strip result - that call then stands for both tests
             for p2, t2 in b.iter_calls():
-                if call_matches(t2, r'Option::<T>::filter$') and len(t2['args']) >= 2 and b.pos_dominates(pos, p2):
+                if call_matches(t2, r'Option::<T>::(filter|is_some_and)$') and len(t2['args']) >= 2 and b.pos_dominates(pos, p2):
                     for org in origins(b, t2['args'][1]):
                         if org[0] not in ('param', 'const', 'place') and org[1].get('k') == 'assign' and org[1]['rv']['k'] == 'agg' and org[1]['rv'].get('ak') == 'closure':
                             cb = P.bodies.get(org[1]['rv'].get('fn'))
